@@ -17,6 +17,8 @@ use json::J;
 use std::time::{Duration, Instant};
 
 static CASE_NO: std::sync::atomic::AtomicU64 = std::sync::atomic::AtomicU64::new(0);
+/// 1 while the parse entry points are being pre-run for a parse-side property other than C01 (a panic or hang there is C01's business)
+pub static IN_PARSE_PRECHECK: std::sync::atomic::AtomicU64 = std::sync::atomic::AtomicU64::new(0);
 
 pub struct Rng(pub u64);
 impl Rng {
@@ -122,6 +124,8 @@ fn main() {
             let prop = args[2].clone();
             let mut seed = 0u64;
             let mut ms = 10000u64;
+            let mut start = 0u64;
+            let mut depth = 0u64;
             let mut i = 3;
             // --exclude <json pattern>: inputs a listed known finding already covers (key -> value | {"min":n,"max":n})
             let mut exclude: Vec<J> = vec![];
@@ -132,6 +136,8 @@ fn main() {
                             exclude.push(p);
                         }
                     }
+                    "--start" => start = args[i + 1].parse().unwrap_or(0),
+                    "--depth" => depth = args[i + 1].parse().unwrap_or(0),
                     "--seed" => seed = args[i + 1].parse().unwrap_or(0),
                     "--ms" => ms = args[i + 1].parse().unwrap_or(10000),
                     _ => {}
@@ -146,6 +152,7 @@ fn main() {
             // deterministic, so the hanging case is regenerated from the seed and reported as the witness
             {
                 let prop = prop.clone();
+                let exclude_w: Vec<String> = exclude.iter().map(|e| e.to_string()).collect();
                 std::thread::spawn(move || {
                     let mut last = u64::MAX;
                     let mut since = Instant::now();
@@ -155,6 +162,24 @@ fn main() {
                         if cur != last {
                             last = cur;
                             since = Instant::now();
+                        } else if cur > 0 && since.elapsed() > Duration::from_secs(4) && IN_PARSE_PRECHECK.load(std::sync::atomic::Ordering::SeqCst) == 1 {
+                            // parsing itself hangs on this input: that is a C01 violation, not a counterexample to this
+                            // property. Continue behind the hanging case in a fresh process (the generator is deterministic).
+                            let left = deadline.saturating_duration_since(Instant::now()).as_millis() as u64;
+                            if depth >= 8 || left < 500 {
+                                eprintln!("no witness ({} cases skipped because parsing does not terminate on them)", depth + 1);
+                                std::process::exit(0);
+                            }
+                            let mut cmd = std::process::Command::new(std::env::current_exe().unwrap());
+                            cmd.arg("search").arg(&prop).arg("--seed").arg(seed.to_string()).arg("--ms").arg(left.to_string())
+                                .arg("--start").arg(cur.to_string()).arg("--depth").arg((depth + 1).to_string());
+                            for e in exclude_w.iter() {
+                                cmd.arg("--exclude").arg(e);
+                            }
+                            let out = cmd.output().expect("re-exec");
+                            print!("{}", String::from_utf8_lossy(&out.stdout));
+                            eprint!("{}", String::from_utf8_lossy(&out.stderr));
+                            std::process::exit(out.status.code().unwrap_or(2));
                         } else if cur > 0 && since.elapsed() > Duration::from_secs(4) {
                             let mut rng = Rng::new(seed);
                             let mut g = gen::Gen::new(&prop);
@@ -183,6 +208,9 @@ fn main() {
                     None => break,
                 };
                 n += 1;
+                if n <= start {
+                    continue;
+                }
                 CASE_NO.store(n, std::sync::atomic::Ordering::SeqCst);
                 if exclude.iter().any(|p| covered(p, &w)) {
                     continue;
